@@ -44,3 +44,23 @@ pub fn ok_walk_with_marks(nodes: &[N], root: usize) -> Result<usize, String> {
     }
     Ok(count)
 }
+
+/// marks and rejects, except that childless nodes skip the test altogether
+pub fn ctl_walk_exempts_leaves(nodes: &[N], root: usize) -> Result<usize, String> {
+    let mut seen = vec![false; nodes.len()];
+    let mut count = 0;
+    let mut pending = vec![root];
+    while let Some(i) = pending.pop() {
+        match (seen.get_mut(i), nodes.get(i)) {
+            (Some(_), Some(n)) if n.get_left().is_none() && n.get_right().is_none() => {}
+            (Some(s), Some(n)) if !*s => {
+                *s = true;
+                count += 1;
+                pending.extend(n.get_left());
+                pending.extend(n.get_right());
+            }
+            _ => return Err(format!("node {} is linked more than once", i)),
+        }
+    }
+    Ok(count)
+}
